@@ -280,7 +280,71 @@ func siteKind(in ssa.Instruction) string {
 
 // ---------- obligations ----------
 
+// splitGoal splits a goal at top-level conjunctions (also under implications) into separate goals.
+func splitGoal(goal string) []string {
+	if !strings.Contains(goal, "(and ") || len(goal) < 200 {
+		return []string{goal}
+	}
+	t, err := parseSx(goal)
+	if err != nil {
+		return []string{goal}
+	}
+	var out []string
+	// wrap applies the enclosing binders/guards (innermost last) to a leaf goal
+	type frame struct {
+		guard  string // non-empty: implication guard
+		binder string // non-empty: "(forall (binders)"
+	}
+	var walk func(f *sx, ctx []frame)
+	walk = func(f *sx, ctx []frame) {
+		switch f.head() {
+		case "and":
+			for _, c := range f.list[1:] {
+				walk(c, ctx)
+			}
+			return
+		case "=>":
+			if len(f.list) == 3 {
+				walk(f.list[2], append(append([]frame(nil), ctx...), frame{guard: f.list[1].String()}))
+				return
+			}
+		case "forall":
+			if len(f.list) == 3 {
+				walk(stripBang(f.list[2]), append(append([]frame(nil), ctx...), frame{binder: f.list[1].String()}))
+				return
+			}
+		}
+		g := f.String()
+		for i := len(ctx) - 1; i >= 0; i-- {
+			if ctx[i].guard != "" {
+				g = "(=> " + ctx[i].guard + " " + g + ")"
+			} else {
+				g = "(forall " + ctx[i].binder + " " + g + ")"
+			}
+		}
+		out = append(out, g)
+	}
+	walk(t, nil)
+	if len(out) == 0 || len(out) > 24 {
+		return []string{goal}
+	}
+	return out
+}
+
 func (v *Verifier) emit(st *State, kind, label, goal string, props []string, text string, in ssa.Instruction) *Obligation {
+	if kind == "post" || strings.HasPrefix(kind, "inv.") || kind == "pre" {
+		if parts := splitGoal(goal); len(parts) > 1 {
+			var last *Obligation
+			for _, g := range parts {
+				last = v.emit1(st, kind, label, g, props, text, in)
+			}
+			return last
+		}
+	}
+	return v.emit1(st, kind, label, goal, props, text, in)
+}
+
+func (v *Verifier) emit1(st *State, kind, label, goal string, props []string, text string, in ssa.Instruction) *Obligation {
 	id := v.key + "/" + kind
 	if label != "" {
 		id += "." + label
@@ -1824,6 +1888,9 @@ func (v *Verifier) modSets(c *Contract, se *SpecEnv) (sets map[string][]string, 
 			gs := *se
 			gs.pkg = g.Pkg
 			srt := v.env.sr.sortOf(gs.resolveType(g.T))
+			if g.Key2 != nil {
+				srt = arr("Int", srt)
+			}
 			if g.Key == nil {
 				sets["G!"+g.Name] = []string{"*"}
 				sorts["G!"+g.Name] = srt
